@@ -36,6 +36,8 @@ def run(ctx, chk):
     chk.rule("P5", "reply header: request's code, flags REPLY, size = size_of body + payload length")
     chk.rule("P6", "one header receive and one body receive of exactly hdr.size bytes per request; no other reads")
     run_on(fb, chk)
+    from . import xlist
+    xlist.apply("C04", fb, chk)
     n = lambda r: len([i for i in chk.instances if i[0] == r])
     chk.floor("P1", n("P1"), 13)
     chk.floor("P2", n("P2"), 20)
